@@ -170,7 +170,16 @@ func (p *parser) matchIf(predicate itemPredicate, tokens ...interface{}) (matche
 // parseClass parses a class. The "class" token was already consumed.
 func (p *parser) parseClass() {
 	var name string
+	nameItem := p.peek()
 	p.match(&name, "implements", "Namespace", "{")
+	for _, n := range p.namespaces {
+		if !p.fatal && n.Name == name {
+			// Only one of the declarations would be in effect, and not
+			// necessarily the one the references were checked against.
+			p.addErr(nameItem, "namespace %q was already declared", name)
+			break
+		}
+	}
 	p.namespace = namespace{Name: name}
 
 	for !p.fatal {
